@@ -22,7 +22,18 @@ def _call_path(n):
     return None
 
 
+_LOCALS = {}
+
+
 def tr_num(n):
+    if isinstance(n, ast.Name) and n.id in _LOCALS:
+        return _LOCALS[n.id]
+    if isinstance(n, ast.Call) and isinstance(n.func, ast.Name) and n.func.id == 'len' and len(n.args) == 1:
+        a = n.args[0]
+        if isinstance(a, ast.Attribute) and isinstance(a.value, ast.Name) and a.value.id == 'self' and a.attr == 'elected':
+            return '.elected'
+        if _call_path(a) == 'self.C.eligible':
+            return '.eligible'
     if isinstance(n, ast.Call) and isinstance(n.func, ast.Name) and n.func.id == 'len' and len(n.args) == 1 \
             and _call_path(n.args[0]) == 'C.hopeful':
         return '.hopeful'
@@ -45,7 +56,7 @@ def tr_test(n):
         terms = [n.left] + list(n.comparators)
         parts = []
         for a, op, b in zip(terms, n.ops, terms[1:]):
-            o = {ast.Gt: 'gt', ast.LtE: 'le'}.get(type(op))
+            o = {ast.Gt: 'gt', ast.LtE: 'le', ast.Lt: 'lt', ast.Eq: 'eq'}.get(type(op))
             if o is None:
                 raise TranslationError('comparison not accepted: %s' % ast.dump(n)[:140])
             parts.append('(.%s %s %s)' % (o, tr_num(a), tr_num(b)))
@@ -130,6 +141,28 @@ def guards(repo):
     if not (len(body) == 1 and isinstance(body[0], ast.Return) and body[0].value is not None):
         raise TranslationError('%s: seatsLeftToFill() is not a single return' % path)
     out['seatsLeft'] = (tr_num(body[0].value), 'C01.seatsLeftProg', 'NEx')
+    # election.py: postCheck()
+    fs = [n for n in ast.walk(tree) if isinstance(n, ast.FunctionDef) and n.name == 'postCheck']
+    if len(fs) != 1:
+        raise TranslationError('%s: %d definitions of postCheck' % (path, len(fs)))
+    body = [st for st in fs[0].body if not (isinstance(st, ast.Expr) and isinstance(st.value, ast.Constant))]
+    _LOCALS.clear()
+    try:
+        for st in body[:-1]:
+            if isinstance(st, ast.Assign) and len(st.targets) == 1 and isinstance(st.targets[0], ast.Name):
+                _LOCALS[st.targets[0].id] = tr_num(st.value)
+            else:
+                raise TranslationError('%s: statement not accepted in postCheck(): %s' % (path, ast.dump(st)[:120]))
+        last = body[-1]
+        if isinstance(last, ast.Assert):
+            test = last.test
+        elif isinstance(last, ast.Expr) and isinstance(last.value, ast.Call) and getattr(last.value.func, 'id', None) == 'assert':
+            test = last.value.args[0]
+        else:
+            raise TranslationError('%s: postCheck() does not end in an assert' % path)
+        out['postCheck'] = (tr_test(test), 'C01.postCheckProg', 'GEx')
+    finally:
+        _LOCALS.clear()
     return out
 
 
